@@ -9,9 +9,13 @@ Theorems hold for every number of processes and every schedule:
 
 * `conc_no_splice` — whatever interleaving of index insertions, removals (tombstone
   insertions), lookups, listings, content removals and whole writer lifetimes: every bucket is at
-  all times its initial bytes followed by *whole* framed records, in the order of their appends.
-  Hence (C05) every reader decodes exactly those records: no partial record, no splice, no lost
-  append; the index behaves like the serial execution of the appends in that order.
+  all times its initial bytes followed by *whole* framed well-formed records (`∃ rs`).
+  Hence (C05) every reader decodes the initial records followed by whole records only: no partial
+  record, no splice, nothing of the initial bytes overwritten.  The statement does NOT say which
+  records `rs` are (it does not relate them to the processes that appended them); that — every
+  FINISHED insertion is in the serial order and its record is what later lookups see, i.e. no lost
+  append — is `C07x.index_ops_linearizable` / `C07x.no_finished_insert_lost` (healthy index) and
+  `C07x.lookup_snapshot`.
 * `conc_content_valid` — the content store stays valid under EVERY interleaving of ANY NUMBER of
   whole writers (open, feed chunks, commit / clean up: mapped or plain, keyed or by address, either
   flavour) and quiet operations (index insertions, removals, `remove_hash`, `remove_fully`, `clear`,
@@ -83,10 +87,12 @@ theorem wholeRecords_of_readOnly {α : Type} {p : Prog α} (h : AllCalls ReadOnl
   h.mono (fun c hc => Or.inl (fun fs ht => by
     cases c <;> simp [ReadOnly, Call.mutating] at hc <;> simp [Call.touches] at ht)) (fun _ h => h)
 
-/-- **No splice, no partial record, no lost append — under every schedule.**  Any number of
+/-- **No splice, no partial record, nothing overwritten — under every schedule.**  Any number of
 processes, each running a program all of whose calls are whole-record for bucket `q` (index
 insertions and removals of any keys, lookups, listings, reads, writer phases …): after any
-interleaving, `q` holds its initial bytes followed by whole framed records. -/
+interleaving, `q` holds its initial bytes followed by whole framed records `rs` (some list of
+well-formed records: this theorem does not say whose; that no FINISHED insertion's record is
+missing from it is `C07x.index_ops_linearizable` / `C07x.no_finished_insert_lost`). -/
 theorem conc_no_splice {α : Type} (q : Path) (b0 : Bytes) (ps : List (Prog α))
     (hp : ∀ p ∈ ps, AllCalls (Call.wholeRecords (codec cfg) W q) p) (fs : FS)
     (h0 : BucketIs fs q b0) (sched : List Nat) :
